@@ -178,7 +178,7 @@ static Answer ask_adj(Adj& a, const AOp& o, const Problem& p) {
   } catch (const Exc& e) { r.thrown = true; r.v.clear(); }
   return r;
 }
-static void case_hist_adj(const Problem& p, int first, int maxlen) {
+static void case_hist_adj(const Problem& p, int first, int maxlen, int init_alg) {
   std::vector<Real> b; for (int i = 0; i < p.m; i++) b.push_back(sx::input("b" + std::to_string(i + 1)));
   register_svd(p);
   int n = p.n, m = p.m;
@@ -197,7 +197,8 @@ static void case_hist_adj(const Problem& p, int first, int maxlen) {
   std::function<void(std::vector<int>&)> rec = [&](std::vector<int>& seq) {
     const AOp& last = ops[seq.back()];
     if (last.kind <= 5) {
-      Adj a; a.set(make_input(p, b)); int alg = (int)Adj::envelope; std::string desc; Answer got;
+      Adj a; a.set(make_input(p, b)); int alg = init_alg; a.set_algorithm((Adj::algorithm)init_alg);
+      std::string desc = std::string("[starts as ") + alg_name((Adj::algorithm)init_alg) + "] "; Answer got;
       for (size_t k = 0; k < seq.size(); k++) {
         const AOp& op = ops[seq[k]]; desc += (k ? "; " : "") + op.name;
         if (op.kind == 6) { a.set_algorithm((Adj::algorithm)op.i); alg = op.i; }
@@ -265,9 +266,10 @@ static void gen_cases(const sx::Options& opt, std::vector<sx::Case>& cases) {
                          [sp, alg, first, maxlen, subs] { sx::note("problem", sp->describe()); case_hist(*sp, alg, first, maxlen, subs, true); }});
     }
     int nadj = p.svd_known ? 12 : 11;
-    for (int first = 0; first < nadj; first++)
-      cases.push_back({"histadj/" + p.name + "/first" + std::to_string(first), "Adj class histories",
-                       [sp, first, maxlen] { sx::note("problem", sp->describe()); case_hist_adj(*sp, first, maxlen); }});
+    for (int init : {(int)Adj::envelope, (int)Adj::gso})
+      for (int first = 0; first < nadj; first++)
+        cases.push_back({"histadj/" + p.name + "/" + alg_name((Adj::algorithm)init) + "/first" + std::to_string(first), "Adj class histories",
+                         [sp, first, maxlen, init] { sx::note("problem", sp->describe()); case_hist_adj(*sp, first, maxlen, init); }});
   }
 }
 int main(int argc, char** argv) { return sx::run_main(argc, argv, "hist", gen_cases); }
